@@ -31,7 +31,30 @@ func (u *Unit) deepCopyCall(fn *ssa.Function, args []*SV, st *State, pc *Term) [
 	u.usedTrusted["assumed contract (generated deepcopy): "+shortName(fn.String())] = true
 	nonNil := c.Neq(src, c.Nil())
 	u.dcBound = st.alloc
+	before := st.alloc
 	dst := u.deepCopyObj(st, c.And(pc, nonNil), src, et, 3)
+	// The copy is a tree of newly allocated objects (including the ones this model does not descend into): every
+	// reference held, right after the copy, by an object that did not exist before it is nil or refers to an object
+	// that did not exist before it. With "deepcopy-tree" in the unit's contract the nested objects get a reserved
+	// block of roots (the counter moves by an unknown amount), so they cannot coincide with later allocations;
+	// without it there is no upper bound, which only adds behaviours (possible aliasing with later allocations).
+	var after *Term
+	if u.con != nil && u.con.DeepTree {
+		u.havoc(st, pc, &FrameSpec{})
+		after = st.alloc
+	}
+	inNew := func(x *Term) *Term {
+		if after == nil {
+			return c.Le(before, c.Root(x))
+		}
+		return c.And(c.Le(before, c.Root(x)), c.Lt(c.Root(x), after))
+	}
+	a := c.BoundVar("da", SRef)
+	rsel := c.mk("select", "", SRef, u.heapArr(st, SRef), a)
+	u.assume(pc, c.Forall([]*Term{a}, c.Implies(inNew(a), c.Or(c.Eq(rsel, c.Nil()), inNew(rsel))), []*Term{rsel}))
+	ssel := c.mk("select", "", SSlice, u.heapArr(st, SSlice), a)
+	u.assume(pc, c.Forall([]*Term{a}, c.Implies(inNew(a), c.Or(c.Eq(c.SArr(ssel), c.Nil()), inNew(c.SArr(ssel)))), []*Term{ssel}))
+	u.freshRegions = append(u.freshRegions, freshRegion{guard: pc, before: before, after: after, refArr: u.heapArr(st, SRef), slArr: u.heapArr(st, SSlice)})
 	return []*SV{leaf(c.Ite(nonNil, dst, c.Nil()))}
 }
 
@@ -109,7 +132,14 @@ func (u *Unit) deepCopyInto(st *State, guard *Term, src, dst *Term, t types.Type
 			}
 			u.store(st, dst, t, leaf(c.Ite(isNil, c.Nil(), nm)))
 		default:
-			u.store(st, dst, t, leaf(v))
+			if s == SRef {
+				// interface-typed (or other reference-like) leaf: the real copy holds a copy of the dynamic value;
+				// modelled as an unknown new reference with the same nil-ness
+				nu := u.allocObj(st)
+				u.store(st, dst, t, leaf(c.Ite(c.Eq(v, c.Nil()), c.Nil(), nu)))
+			} else {
+				u.store(st, dst, t, leaf(v))
+			}
 		}
 		_ = s
 		return
